@@ -677,32 +677,88 @@ def m_char_upper(it, ctx, a, m, f):
     return z3.If(z3.And(z3.UGE(c, 97), z3.ULE(c, 122)), c - 32, c)
 
 
-@model(r'^str::traits::<impl Index<(RangeFrom|RangeTo|Range)<usize>> for str>::index$|<str as Index<(RangeFrom|RangeTo|Range)<usize>>>::index$')
+def _upper(c):
+    if isinstance(c, int):
+        return c - 32 if 97 <= c <= 122 else c
+    return z3.If(z3.And(z3.UGE(c, 97), z3.ULE(c, 122)), c - 32, c)
+
+
+def _char_index_of_byte(ctx, s, off):
+    """char index k with utf8_len(s[:k]) == off; a byte offset that is out of range or inside a character panics in the real code"""
+    k = 0; b = 0
+    while b < off:
+        if k >= len(s.cs):
+            raise Panic('str index out of range')
+        c = s.cs[k]
+        if isinstance(c, int):
+            b += 1 if c < 0x80 else 2 if c < 0x800 else 3 if c < 0x10000 else 4
+        elif ctx.decide(z3.ULT(c, 0x80)):
+            b += 1
+        elif ctx.decide(z3.ULT(c, 0x800)):
+            b += 2
+        elif ctx.decide(z3.ULT(c, 0x10000)):
+            b += 3
+        else:
+            b += 4
+        k += 1
+    if b != off:
+        raise Panic('byte index %d is not a char boundary' % off)
+    return k
+
+
+def _range_bounds(ctx, s, r, kind):
+    if kind == 'RangeFrom':
+        return _char_index_of_byte(ctx, s, r.fields[0]), len(s.cs)
+    if kind == 'RangeTo':
+        return 0, _char_index_of_byte(ctx, s, r.fields[0])
+    if kind == 'RangeFull':
+        return 0, len(s.cs)
+    lo = _char_index_of_byte(ctx, s, r.fields[0]); hi = _char_index_of_byte(ctx, s, r.fields[1])
+    if lo > hi:
+        raise Panic('slice index starts after it ends')
+    return lo, hi
+
+
+@model(r'^str::traits::<impl Index<(RangeFrom|RangeTo|Range)<usize>> for str>::index$|<(?:str|String) as Index<(RangeFrom|RangeTo|Range|RangeFull)(?:<usize>)?>>::index$')
 def m_str_index(it, ctx, a, m, f):
     s = S(a[0]); r = deref(a[1])
     kind = m.group(1) or m.group(2)
-    # byte offsets: exact for ASCII prefixes; a non-char-boundary offset panics in the real code
-    def at(off):
-        k = 0; b = 0
-        while b < off:
-            if k >= len(s.cs):
-                raise Panic('str index out of range')
-            c = s.cs[k]
-            if isinstance(c, int):
-                b += 1 if c < 0x80 else 2 if c < 0x800 else 3 if c < 0x10000 else 4
-            else:
-                if not ctx.decide(z3.ULT(c, 0x80)):
-                    raise Unsupported('byte-indexing a string after a symbolic non-ASCII character')
-                b += 1
-            k += 1
-        if b != off:
-            raise Panic('byte index is not a char boundary')
-        return k
-    if kind == 'RangeFrom':
-        return SStr(s.cs[at(r.fields[0]):])
-    if kind == 'RangeTo':
-        return SStr(s.cs[:at(r.fields[0])])
-    return SStr(s.cs[at(r.fields[0]):at(r.fields[1])])
+    lo, hi = _range_bounds(ctx, s, r, kind)
+    return SStr(s.cs[lo:hi])
+
+
+@model(r'^str::traits::<impl IndexMut<(RangeFrom|RangeTo|Range)<usize>> for str>::index_mut$|<(?:str|String) as IndexMut<(RangeFrom|RangeTo|Range|RangeFull)(?:<usize>)?>>::index_mut$')
+def m_str_index_mut(it, ctx, a, m, f):
+    """`&mut s[a..b]`: a view that in-place operations write through"""
+    if not isinstance(a[0], Ref):
+        raise Unsupported('index_mut on a non-reference string')
+    s = S(a[0]); r = deref(a[1])
+    kind = m.group(1) or m.group(2)
+    lo, hi = _range_bounds(ctx, s, r, kind)
+    return Adt('StrViewMut', None, [a[0], lo, hi], ['target', 'lo', 'hi'])
+
+
+@model(r'str::<impl str>::make_ascii_(lowercase|uppercase)$|^String::make_ascii_(lowercase|uppercase)$')
+def m_make_ascii_case(it, ctx, a, m, f):
+    conv = _lower if 'lowercase' in f else _upper
+    v = a[0]
+    tgt = deref(v) if not (isinstance(v, Adt) and v.ty == 'StrViewMut') else v
+    if isinstance(tgt, Adt) and tgt.ty == 'StrViewMut':
+        ref = tgt.fields[0]; lo, hi = tgt.fields[1], tgt.fields[2]
+        while isinstance(ref.get(), Ref):
+            ref = ref.get()
+        s = ref.get()
+        cs = list(s.cs)
+        ref.set(SStr(cs[:lo] + [conv(c) for c in cs[lo:hi]] + cs[hi:]))
+        return []
+    if isinstance(v, Ref):
+        s = S(v)
+        r = v
+        while isinstance(r.get(), Ref):
+            r = r.get()
+        r.set(SStr([conv(c) for c in s.cs]))
+        return []
+    raise Unsupported('make_ascii_case on ' + repr(v)[:60])
 
 
 @model(r'str::<impl str>::is_empty$|String::is_empty$|Atom::is_empty$')
@@ -2050,6 +2106,41 @@ def _id_char(ctx, c, start):
 
 
 ID_REPS = {'start': [0xE9, 0x4E2D, 0x3B1, 0x10400], 'continue': [0xB7, 0x300, 0x200D], 'neither': [0x221E, 0xA0, 0x1F600, 0x3000]}
+
+
+_LIT_FALSE = {'ArrowExpr', 'AssignExpr', 'AwaitExpr', 'BinExpr', 'CallExpr', 'ClassExpr', 'CondExpr', 'FnExpr', 'Invalid', 'MemberExpr', 'MetaPropExpr', 'NewExpr', 'OptChainExpr',
+              'PrivateName', 'SeqExpr', 'SpreadElement', 'TaggedTpl', 'ThisExpr', 'TsConstAssertion', 'TsNonNullExpr', 'UnaryExpr', 'UpdateExpr', 'YieldExpr'}
+
+
+def _swc_is_literal(v):
+    """swc_ecma_utils::is_literal (LiteralVisitor with allow_non_json_value = true), node for node as in the crate's source -
+    including what it does not look at (e.g. a `super.x` property access has no visitor method and no identifier expression inside)"""
+    v = deref(v)
+    if isinstance(v, list):
+        return all(_swc_is_literal(x) for x in v)
+    if not isinstance(v, Adt):
+        return True
+    if v.ty in _LIT_FALSE:
+        return False
+    if v.ty.startswith('Ts') and v.ty not in ('TsAsExpr', 'TsSatisfiesExpr', 'TsTypeAssertion', 'TsInstantiation', 'TsConstAssertion', 'TsNonNullExpr'):
+        return True            # noop_visit_type!: types are not visited
+    if v.ty == 'Expr':
+        if v.variant == 'Ident':
+            return False
+        if v.variant == 'Lit' and deref(v.fields[0]).variant == 'Regex':
+            return False
+        if v.variant == 'Tpl' and len(deref(v.fields[0]).get('exprs')) > 0:
+            return False
+    if v.ty == 'Prop':
+        return all(_swc_is_literal(f) for f in v.fields) and v.variant == 'KeyValue'
+    if v.ty == 'PropName':
+        return all(_swc_is_literal(f) for f in v.fields) and v.variant not in ('BigInt', 'Computed')
+    return all(_swc_is_literal(f) for f in v.fields)
+
+
+@model(r'^is_literal::<|utils::is_literal::<')
+def m_is_literal(it, ctx, a, m, f):
+    return _swc_is_literal(a[0])
 
 
 @model(r'^is_valid_prop_ident$|utils::is_valid_prop_ident$')
